@@ -62,7 +62,8 @@ def _tol_rates(route):
     2 Re int_0^inf C(t) e^{iwt} dt is -(dt^2/6) Re[C'(0) + i w C(0)]; with Matsubara
     terms up to 2pi/dt, Re C'(0) ~ -4 lam/(tau dt), so the error is O(lam dt/tau) and
     relative to C(w) ~ 2 (1+coth) lam/(tau w) it is ~ w dt/(3 (1+coth)): linear in w*dt.
-    Observed on the clean tree (thorough grid): <= 0.004 + 0.085 w dt; allowed 5x that.
+    Observed on the clean tree (thorough grid): <= 0.004 + 0.085 w dt (worst 1.64 %, 0.16
+    of the allowance); allowed 5x that.
     Route "sd": C(t) IS the inverse FFT of (1+coth)J on the same grid, the forward FFT
     returns it exactly and only the spline interpolation between frequency points
     remains: observed <= 2.8e-4, allowed 2e-3."""
@@ -72,9 +73,10 @@ def _tol_rates(route):
 
 def _tol_tensor(route):
     """Spline quadrature of C(t) e^{iwt} on the time grid (tensor and K(t_max)); same
-    w*dt scaling.  Observed on the clean tree: analytic C(t) <= 0.0008 + 0.006 w dt
-    (worst 0.18 %); C(t) from a SpectralDensity (band-limited to pi/dt, rings at the grid
-    scale) <= 0.004 + 0.05 w dt (worst 1.0 %).  Allowed >= 5x."""
+    w*dt scaling as above with smaller constants.  Worst on the clean tree (thorough
+    grid): analytic C(t) 0.18 % (0.14 of the allowance); C(t) derived from a
+    SpectralDensity (band-limited to pi/dt, rings at the grid scale) 0.99 % (0.17 of the
+    allowance)."""
     q = QTOL_TENSOR_SD if route == "sd" else QTOL_TENSOR
     return lambda w, dt: q[0] + q[1] * w * dt
 
